@@ -31,11 +31,11 @@ namespace Givaro {
     }
 
     TMPL
-    COND_TMPL(Source, IS_UINT(Source) && (sizeof(Source) > sizeof(Storage_t)))
+    COND_TMPL(Source, IS_UINT(Source) && (sizeof(Source) >= sizeof(Storage_t)))
     inline typename MOD::Element&
     MOD::init (Element& x, const Source y) const
     {
-        x = Caster<Element>(y % Source(_p));
+        x = Caster<Element>(y % _p);
         return x;
     }
 
@@ -79,7 +79,7 @@ namespace Givaro {
 
     TMPL
     COND_TMPL(Source, IS_UINT(Storage_t)
-              &&!(IS_INT(Source) && (sizeof(Source) > sizeof(Storage_t)))
+              &&!(IS_INT(Source) && (sizeof(Source) > sizeof(Storage_t))) &&!(IS_UINT(Source) && (sizeof(Source) == sizeof(Storage_t)))
               &&!(IS_FLOAT(Source) && (sizeof(Source) >= sizeof(Storage_t))))
     inline typename MOD::Element&
     MOD::init (Element& x, const Source& y) const
@@ -91,7 +91,7 @@ namespace Givaro {
 
     TMPL
     COND_TMPL(Source, IS_SINT(Storage_t)
-              &&!(IS_INT(Source) && (sizeof(Source) > sizeof(Storage_t)))
+              &&!(IS_INT(Source) && (sizeof(Source) > sizeof(Storage_t))) &&!(IS_UINT(Source) && (sizeof(Source) == sizeof(Storage_t)))
               &&!(IS_FLOAT(Source) && (sizeof(Source) >= sizeof(Storage_t))))
     inline typename MOD::Element&
     MOD::init (Element& x, const Source& y) const
